@@ -65,9 +65,9 @@ var specs = map[string]spec{
 		Assumptions: append([]string{"liveness is judged only in the fair phase (no faults, round-robin scheduling, time advances only at quiescence) and only for connections that are still open"}, assumeKernel...),
 	},
 	"C05": {
-		World: "core", Level: "exploration", QuickS: 30, ThoroughS: 600,
-		Rule: "cases = executor in {inline default, goroutine per call, bounded taskpool(3,2)} x 1-4 submitters x 1-6 jobs via Execute / MustExecute (jobs yield, panic, resubmit from inside) x Close invoked after k submissions have returned; oracle on the recorded history: run intervals pairwise disjoint, accepted jobs exactly once by quiescence, rejected jobs never, Execute false only if Close had been invoked and never true once Close had returned, starts ordered by real-time precedence of submissions (FIFO linearisation), successors of a panicking job run; non-trivial = >= 2 submitters or Close overlapped a submission; distinct = context-switch sequence hash",
-		Real: realCore, Stub: stubKernel,
+		World: "e2e", Level: "exploration", QuickS: 30, ThoroughS: 600,
+		Rule: "seven eighths of the run indices (part 'jobs', nbio.Conn directly): cases = executor in {inline default, goroutine per call, bounded taskpool(3,2)} x 1-4 submitters x 1-6 jobs via Execute / MustExecute (jobs yield, panic, resubmit from inside) x Close invoked after k submissions have returned; oracle on the recorded history: run intervals pairwise disjoint, accepted jobs exactly once by quiescence, rejected jobs never, Execute false only if Close had been invoked and never true once Close had returned, starts ordered by real-time precedence of submissions (FIFO linearisation), successors of a panicking job run; non-trivial = >= 2 submitters or Close overlapped a submission; distinct = context-switch sequence hash. One eighth (part 'stop', the consequence for nbhttp: 'handlers and callbacks of one connection never overlap, close handling runs after the work queued before it'): the HTTP-engine stop scenarios of C18 (handlers in flight, websocket messages being echoed, Stop / Shutdown meanwhile), judged only for the close handling (nbhttp.Engine.OnClose hook, websocket OnClose) running while a handler or message callback of the same connection is still in progress",
+		Real: append([]string{"nbhttp.Engine / websocket (transformed real code) in the stop part"}, realCore...), Stub: stubKernel,
 		Assumptions: append([]string{"FIFO is checked as real-time precedence (a returned before b was invoked => a runs before b) plus per-submitter order, which is exactly linearizability against a FIFO queue with a single consumer; porcupine is not needed for that"}, assumeKernel...),
 	},
 	"C16": {
